@@ -180,6 +180,15 @@ def h_identity(ip, st, args, kw, node):
 def h_array(ip, st, args, kw, node):
     x = args[0] if args else NONE
     if isinstance(x, Tup):
+        dt_ = kw.get('dtype', args[1] if len(args) > 1 else None)
+        if dt_ is not None and dt_ != NONE:
+            # np.array([a, b], dtype=t): every item is cast (an integer type truncates fractional items)
+            def c(i):
+                iv = i.const_value() if isinstance(i, Poly) else None
+                if iv is not None and ('int' not in repr(dt_) or iv.denominator == 1):
+                    return i
+                return app('cast', P(i), dt_) if isinstance(i, (Poly, Const)) else i
+            return Tup([c(i) for i in x.items], 'vec')
         return Tup(x.items, 'vec')
     if isinstance(x, Poly) and x.const_value() is not None and 'dtype' not in kw:
         return x
